@@ -17,6 +17,10 @@ type engIn struct {
 	Wrapped bool           `json:"wrapped,omitempty"`
 	SQL     string         `json:"sql"` // informational: what the real engine was given
 	Repeat  int            `json:"repeat,omitempty"` // run the query this many times; all runs must agree
+	// Reexec: prepare the query, empty every row of table t in place, Exec, restore the rows in place, Exec again;
+	// the SECOND result is the observable. Whether a prepared query sees later edits or a snapshot taken at New,
+	// the second result must be the result over the original document — unless Exec leaves state in the query.
+	Reexec bool `json:"reexec,omitempty"`
 }
 
 type engineProp struct {
@@ -50,7 +54,12 @@ func observeEngine(in engIn) (Observed, error) {
 		opts = append(opts, genql.Wrapped())
 	}
 	doc := deepCopy(in.Doc).(map[string]any)
-	out := runEngine(doc, sql, opts...)
+	var out engineOut
+	if in.Reexec {
+		out = runEngineReexec(doc, sql, opts...)
+	} else {
+		out = runEngine(doc, sql, opts...)
+	}
 	tags := []string{"outcome:" + out.Class}
 	// purity: the caller's document must be deep-equal to its state before the call (C11), whatever the outcome
 	mutated := deepDiff(anyMap(doc), anyMap(in.Doc))
@@ -342,4 +351,44 @@ func genC01(r *Rand, tier string) []Case {
 func init() {
 	register(engineProp{id: "C01", checkFn: "EngineRun.check_seq", gen: genC01,
 		rule: "random tables (0-6 rows, typed columns, duplicates, NULL/missing only under IS [NOT] NULL) x random predicates over the whole operator grammar (depth 0-3 quick, 0-6 thorough), constants drawn from the table +-1; observable: the sequence of surviving rows (each row carries a unique id); non-trivial = at least 2 source rows and the result is neither an error, nor empty, nor the whole table; distinct = distinct (query, document)"})
+}
+
+// runEngineReexec: see engIn.Reexec.
+func runEngineReexec(doc map[string]any, sql string, opts ...genql.QueryOption) (out engineOut) {
+	defer func() {
+		if r := recover(); r != nil {
+			out = engineOut{Class: "panic", Err: fmt.Sprint(r)}
+		}
+	}()
+	q, err := genql.New(doc, sql, opts...)
+	if err != nil {
+		return engineOut{Class: "error", Err: err.Error()}
+	}
+	rows, _ := doc["t"].([]any)
+	saved := make([]map[string]any, len(rows))
+	for i, r := range rows {
+		if m, ok := r.(map[string]any); ok {
+			saved[i] = make(map[string]any, len(m))
+			for k, v := range m {
+				saved[i][k] = v
+				delete(m, k)
+			}
+		}
+	}
+	func() {
+		defer func() { recover() }()
+		q.Exec()
+	}()
+	for i, r := range rows {
+		if m, ok := r.(map[string]any); ok {
+			for k, v := range saved[i] {
+				m[k] = v
+			}
+		}
+	}
+	res, err := q.Exec()
+	if err != nil {
+		return engineOut{Class: "error", Err: err.Error()}
+	}
+	return engineOut{Class: "ok", Rows: normaliseRows(res)}
 }
